@@ -34,7 +34,7 @@ def make(spec):
         kw['cell'] = np.array([[10.5, 0, 0], [6e-5, 11.25, 0], [-3e-5, 8e-5, 12.125]])
     coeffs = spec['coeffs']
     if coeffs:
-        kw['pair_coeffs'] = ["lj/cut %d.5 3.%d%s" % (i, i, "   # %s" % e if coeffs == 'comment' else "") for i, e in enumerate(els)]
+        kw['pair_coeffs'] = ["lj/cut %d.5 3.%d%s" % (i, i, "   # %s" % e if (coeffs == 'comment' or (coeffs == 'mixed' and i % 2 == 0)) else "") for i, e in enumerate(els)]
     for kind, plural, _, _, w in KINDS:
         k = spec['terms'].get(kind, 0)
         if k and n >= w:
@@ -46,10 +46,10 @@ def make(spec):
             kw[kind + '_types'] = [rnd.randrange(ntk) for _ in range(k)]
             kw[kind + '_types'][0] = ntk - 1
             if coeffs and not (kind in spec.get('no_table', ())):
-                kw[kind + '_type_coeffs'] = ["%s/style %d.25 %d -1%s" % (kind, i + 1, i, "   # %s%d x" % (kind[0], i) if coeffs == 'comment' else "") for i in range(ntk)]
+                kw[kind + '_type_coeffs'] = ["%s/style %d.25 %d -1%s" % (kind, i + 1, i, "   # %s%d x" % (kind[0], i) if (coeffs == 'comment' or (coeffs == 'mixed' and i % 2 == 0)) else "") for i in range(ntk)]
         elif coeffs and kind in spec.get('table_without_terms', ()):
             # a coefficient table whose kind currently has no terms (e.g. all bonds were deleted): the table is still part of the structure
-            kw[kind + '_type_coeffs'] = ["%s/style %d.25 %d -1%s" % (kind, i + 1, i, "   # %s%d x" % (kind[0], i) if coeffs == 'comment' else "") for i in range(spec['termtypes'].get(kind, 1))]
+            kw[kind + '_type_coeffs'] = ["%s/style %d.25 %d -1%s" % (kind, i + 1, i, "   # %s%d x" % (kind[0], i) if (coeffs == 'comment' or (coeffs == 'mixed' and i % 2 == 0)) else "") for i in range(spec['termtypes'].get(kind, 1))]
     with quiet():
         return Atoms(**kw)
 
@@ -188,7 +188,7 @@ REPLAY = {'lmpdat': replay}
 
 def run(rec, tier, seed):
     rec.rule = ("generated structures: 1-4 atoms, 1-3 atom types, 0-2 terms per kind with 1-3 types per kind (different numbers per kind), coefficient "
-                "contiguous and sparse molecule ids, strings without / with one trailing comment / absent (also a kind with terms but no table), cells {none, orthorhombic, tilted, partly "
+                "contiguous and sparse molecule ids, strings without / with one trailing comment / commented and uncommented entries alternating / absent (also a kind with terms but no table), cells {none, orthorhombic, tilted, partly "
                 "tilted, tilts of 1e-5..1e-4}, negative charges and coordinates, both atom styles; the written text is parsed by an independent reader "
                 "and compared with the structure, re-read with mofun and compared, re-written to a byte-identical fixed point; path / file-object "
                 "dispatch of Atoms.save / Atoms.load. distinct = specs")
@@ -199,11 +199,11 @@ def run(rec, tier, seed):
     k = 0
     for cell in cells:
         for terms in termsets:
-            for coeffs in (False, True, 'comment'):
+            for coeffs in (False, True, 'comment', 'mixed'):
                 for style in ('full', 'atomic'):
                     k += 1
-                    if tier == 'quick' and (k // 2) % 2:
-                        continue     # every second (full, atomic) pair
+                    if tier == 'quick' and (k // 2 + (k - 1) // 8) % 2:
+                        continue     # about every second case, shifted from one term set to the next so that every (coefficient mode, style) occurs
                     spec = dict(n=rnd.choice([1, 2, 4, 4]) if not terms else 4, ntypes=rnd.choice([1, 2, 3]), cell=cell, terms=terms, termtypes=ttypes[k % 3], coeffs=coeffs,
                                 style=style, seed=seed * 1000 + k, dispatch=(k % 10 == 0), no_table=(['improper'] if (k % 4 == 0 and coeffs) else []))
                     msg = check(spec)
@@ -212,7 +212,7 @@ def run(rec, tier, seed):
                         rec.fail('lmpdat', 'lmpdat', "%s on %r" % (msg, spec), spec, 'C13/lmpdat')
     # more than nine types in a section (ids 10, 11, ... sort differently as text), and coefficient tables of kinds that have no terms
     for si, style in enumerate(('full', 'atomic')):
-        for coeffs in (True, 'comment'):
+        for coeffs in (True, 'comment', 'mixed'):
             spec = dict(n=12, ntypes=12, cell='ortho' if si else 'tilted', terms=dict(bond=12, angle=3), termtypes=dict(bond=11, angle=2, dihedral=1, improper=1), coeffs=coeffs, style=style,
                         seed=seed * 1000 + 900 + si, dispatch=False, no_table=[])
             msg = check(spec)
